@@ -288,7 +288,7 @@ func init() {
 			// whatever that kind of statement keeps outside the statement is used by several goroutines at once
 			theme := -1
 			if r.Intn(2) == 0 {
-				theme = []int{1, 2, 3, 5, 5, 100, 101, 102, 4, 0, 103}[r.Intn(11)]
+				theme = []int{1, 2, 3, 5, 5, 100, 101, 102, 4, 0, 103, 104, 104}[r.Intn(13)]
 			}
 			for g := 0; g < ng; g++ {
 				reg := r.Intn(16)
@@ -297,12 +297,12 @@ func init() {
 				n := Field{E: ACall("int", AVal()), Nm: "n"}
 				var st *Stmt
 				raw := ""
-				kind := r.Intn(15)
+				kind := r.Intn(16)
 				if kind == 10 {
 					kind = 5
 				}
 				if kind >= 11 {
-					kind += 89 // 100 .. 103: readers of a different sort (below)
+					kind += 89 // 100 .. 104: readers of a different sort (below)
 				}
 				if theme >= 0 && g < 3 {
 					kind = theme
@@ -365,6 +365,20 @@ func init() {
 				case 102:
 					st = &Stmt{Kind: "select", Fields: []Field{{E: ACall("group_concat", AIdx(ACall("json", AVal()), AStr("a")), AStr(",")), Nm: "as"}, {E: ACall("count", AInt(1)), Nm: "c"}},
 						Where: ABin("^=", AKey(), AStr(fmt.Sprintf("j%02d", reg)))}
+				case 104:
+					// aggregates filtered through a select-field name: the SAME name `n` with a different meaning in each
+					// statement, over one of two shared regions (readers may share a region), so the same keys are evaluated
+					// under the same name by several statements
+					reg = g % 2
+					for t := 0; t < 16 && writerRegion[reg]; t++ {
+						reg = (reg + 1) % 16
+					}
+					pre = AStr(fmt.Sprintf("r%02d", reg))
+					kpre = ABin("^=", AKey(), pre)
+					defs := []*Node{ACall("int", AVal()), ACall("strlen", AKey()), ABin("*", ACall("int", AVal()), AInt(2)), ABin("+", ACall("int", AVal()), AInt(3))}
+					nd := Field{E: defs[r.Intn(len(defs))], Nm: "n"}
+					st = &Stmt{Kind: "select", Fields: []Field{{E: AVal(), Nm: "g"}, nd, {E: ACall("count", AInt(1)), Nm: "c"}, {E: ACall("sum", AName("n")), Nm: "s"}},
+						Where: ABin("&", kpre, ABin(">", AName("n"), AInt(1+r.Intn(3)))), Group: []int{1, 2}}
 				case 103:
 					// a DELETE whose clause no key can satisfy (disjoint prefixes / equalities): it touches nothing, like a reader
 					if r.Intn(2) == 0 {
